@@ -21,6 +21,9 @@ const modPath = "github.com/AliyunContainerService/terway"
 
 type HarnessResult struct {
 	Name         string
+	Base         string
+	Shard        int
+	NShard       int
 	Paths        int
 	Obligations  int
 	Discharged   int
@@ -146,7 +149,13 @@ func main() {
 		os.Exit(2)
 	}
 	prog, spkgs := ssautil.AllPackages(pkgs, ssa.InstantiateGenerics)
-	prog.Build()
+	_ = spkgs
+	// packages are built lazily, on first call into them (see pushCall)
+	for _, sp := range spkgs {
+		if sp != nil {
+			sp.Build()
+		}
+	}
 	loadT := time.Since(start)
 
 	var modelPkg *ssa.Package
@@ -211,13 +220,29 @@ func main() {
 	}
 	fmt.Printf("gosym: loaded %d packages, SSA built in %.1fs; %d harness(es), tier=%s\n", len(prog.AllPackages()), loadT.Seconds(), len(harnesses), *tier)
 
-	results := make([]*HarnessResult, len(harnesses))
+	// shards: a harness that calls zz.Shard(n) with a constant n is run n times
+	type job struct {
+		fn            *ssa.Function
+		shard, nshard int
+	}
+	var jobsL []job
+	for _, h := range harnesses {
+		n := shardCount(h)
+		if n <= 1 {
+			jobsL = append(jobsL, job{h, 0, 0})
+			continue
+		}
+		for s := 0; s < n; s++ {
+			jobsL = append(jobsL, job{h, s, n})
+		}
+	}
+	results := make([]*HarnessResult, len(jobsL))
 	var wg sync.WaitGroup
 	sem := make(chan struct{}, *jobs)
 	var mu sync.Mutex
-	for hi, h := range harnesses {
+	for hi, jb := range jobsL {
 		wg.Add(1)
-		go func(hi int, h *ssa.Function) {
+		go func(hi int, h *ssa.Function, shard, nshard int) {
 			defer wg.Done()
 			sem <- struct{}{}
 			defer func() { <-sem }()
@@ -229,7 +254,13 @@ func main() {
 				os.Exit(2)
 			}
 			x.modelPkg = modelPkg
+			x.shard, x.nshards = shard, nshard
 			hr := &HarnessResult{Name: h.Name()}
+			if nshard > 1 {
+				hr.Name = fmt.Sprintf("%s[%d/%d]", h.Name(), shard, nshard)
+			}
+			hr.Base = h.Name()
+			hr.Shard, hr.NShard = shard, nshard
 			func() {
 				defer func() {
 					if r := recover(); r != nil {
@@ -284,15 +315,17 @@ func main() {
 			status := "ok"
 			if len(hr.Violations) > 0 {
 				status = fmt.Sprintf("%d VIOLATING PATH(S)", len(hr.Violations))
-			} else if len(hr.Inconclusive) > 0 || len(hr.Unreached) > 0 {
+			} else if len(hr.Inconclusive) > 0 || (len(hr.Unreached) > 0 && hr.NShard <= 1) {
 				status = "INCONCLUSIVE"
 			}
 			fmt.Printf("  %-46s paths=%-6d obl=%-6d disch=%-6d (trivial %d) queries=%-6d solver=%.1fs wall=%.1fs  %s\n", hr.Name, hr.Paths, hr.Obligations, hr.Discharged, hr.Trivial, hr.Queries, hr.SolverTime, hr.Wall, status)
 			for _, m := range hr.Inconclusive {
 				fmt.Printf("      inconclusive: %s\n", m)
 			}
-			for _, m := range hr.Unreached {
-				fmt.Printf("      vacuity: never reached %s\n", m)
+			if hr.NShard <= 1 {
+				for _, m := range hr.Unreached {
+					fmt.Printf("      vacuity: never reached %s\n", m)
+				}
 			}
 			for k, v := range hr.Violations {
 				if k >= 3 {
@@ -302,9 +335,38 @@ func main() {
 				fmt.Printf("      violation: %s at %s\n", v.Msg, v.Pos)
 			}
 			mu.Unlock()
-		}(hi, h)
+		}(hi, jb.fn, jb.shard, jb.nshard)
 	}
 	wg.Wait()
+	// vacuity across shards: a site counts as unreached only if no shard reached it
+	byBase := map[string][]*HarnessResult{}
+	for _, r := range results {
+		if r.NShard > 1 {
+			byBase[r.Base] = append(byBase[r.Base], r)
+		}
+	}
+	for base, grp := range byBase {
+		cnt := map[string]int{}
+		defer func(base string, grp []*HarnessResult) {
+			for _, u := range grp[0].Unreached {
+				fmt.Printf("  %s: vacuity: no shard reached %s\n", base, u)
+			}
+		}(base, grp)
+		for _, r := range grp {
+			for _, u := range r.Unreached {
+				cnt[u]++
+			}
+		}
+		for _, r := range grp {
+			var keep []string
+			for _, u := range r.Unreached {
+				if cnt[u] == len(grp) {
+					keep = append(keep, u)
+				}
+			}
+			r.Unreached = keep
+		}
+	}
 
 	if *out != "" {
 		b, _ := json.MarshalIndent(map[string]interface{}{
@@ -332,6 +394,21 @@ func main() {
 // unreachedSites lists Assert/Reach call sites in the harness' package files
 // (functions reachable from h by static calls inside the same package and
 // defined in zz_ files) that no feasible path reached.
+func shardCount(h *ssa.Function) int {
+	for _, b := range h.Blocks {
+		for _, in := range b.Instrs {
+			if c, ok := in.(*ssa.Call); ok {
+				if callee := c.Call.StaticCallee(); callee != nil && fnName(callee) == zz+"Shard" {
+					if k, ok := c.Call.Args[0].(*ssa.Const); ok {
+						return int(k.Int64())
+					}
+				}
+			}
+		}
+	}
+	return 0
+}
+
 func unreachedSites(x *Exec, h *ssa.Function) []string {
 	var res []string
 	seen := map[*ssa.Function]bool{}
@@ -415,10 +492,14 @@ func exportResults(rs []*HarnessResult) []map[string]interface{} {
 	for _, r := range rs {
 		var vs []xViolation
 		for _, v := range r.Violations {
-			vs = append(vs, exportViolation(v))
+			xv := exportViolation(v)
+			if r.NShard > 1 {
+				xv.Values["$shard"] = fmt.Sprintf("i:%d", r.Shard)
+			}
+			vs = append(vs, xv)
 		}
 		out = append(out, map[string]interface{}{
-			"name": r.Name, "paths": r.Paths, "obligations": r.Obligations, "discharged": r.Discharged, "trivial": r.Trivial,
+			"name": r.Name, "base": r.Base, "paths": r.Paths, "obligations": r.Obligations, "discharged": r.Discharged, "trivial": r.Trivial,
 			"nontrivial": r.Nontrivial, "violations": vs, "inconclusive": r.Inconclusive, "unreached": r.Unreached,
 			"assert_sites": r.AssertSites, "reach_tags": r.ReachTags, "functions": r.Fns, "stubs": r.Stubs,
 			"queries": r.Queries, "solver_s": r.SolverTime, "wall_s": r.Wall, "max_loop_visits": r.MaxLoop, "samples": r.Samples,
